@@ -36,13 +36,43 @@ def col(values):
     return np.array([np.nan if v is None else v for v in values], dtype="float64")
 
 
+def build_time(tbl):
+    """datetime64[ns] axis: whole seconds, optionally plus quarter-second fractions ("frac_ms"), with NaT
+    at the rows listed in "nat" (a record whose clock value is missing)."""
+    t = np.array(tbl["times"], dtype="int64").astype("datetime64[s]").astype("datetime64[ns]")
+    if tbl.get("frac_ms"):
+        t = t + np.array(tbl["frac_ms"], dtype="int64").astype("timedelta64[ms]")
+    if tbl.get("nat"):
+        t[np.array(tbl["nat"], dtype=int)] = np.datetime64("NaT")
+    return t
+
+
+def row_times(tbl):
+    """Row times as the reference model sees them: seconds (float when fractional), None for NaT."""
+    out = []
+    nat = set(tbl.get("nat") or [])
+    frac = tbl.get("frac_ms")
+    for i, t in enumerate(tbl["times"]):
+        if i in nat:
+            out.append(None)
+        elif frac and frac[i]:
+            out.append(t + frac[i] / 1000.0)
+        else:
+            out.append(t)
+    return out
+
+
+def typed_col(values, dtype):
+    if dtype == "int64":
+        return np.array([int(v) for v in values], dtype="int64")  # straight from the integers, never through float64
+    return col(values).astype(dtype)
+
+
 def table_arrays(tbl):
     out = {
         # "no_time": the source has no time axis at all (tbl["times"] is then only the harness' row count)
-        "time": np.array(tbl["times"], dtype="int64").astype("datetime64[s]").astype("datetime64[ns]")
-        if tbl.get("times") is not None and not tbl.get("no_time")
-        else None,
-        "cols": OrderedDict((k, col(v).astype((tbl.get("dtypes") or {}).get(k, "float64"))) for k, v in tbl["cols"].items()),
+        "time": build_time(tbl) if tbl.get("times") is not None and not tbl.get("no_time") else None,
+        "cols": OrderedDict((k, typed_col(v, (tbl.get("dtypes") or {}).get(k, "float64"))) for k, v in tbl["cols"].items()),
     }
     for ax in ("z", "lat", "lon"):
         out[ax] = col(tbl[ax]) if tbl.get(ax) is not None else None
@@ -72,7 +102,7 @@ def make_index(tbl, n):
     if kind == "offset":
         return pd.RangeIndex(ix.get("start", 100), ix.get("start", 100) + n)
     if kind == "datetime":
-        return pd.DatetimeIndex(np.array(tbl["times"], dtype="int64").astype("datetime64[s]").astype("datetime64[ns]"))
+        return pd.DatetimeIndex(build_time(tbl))
     if kind == "perm":
         return pd.Index([int(p) for p in ix["perm"][:n]], dtype="int64")
     if kind == "str":
@@ -171,13 +201,15 @@ def window_value(epoch, form):
 
 def model_rows(window, times):
     """Reference window membership: starting <= t < ending, absent bound open."""
-    t = np.asarray(times, dtype="int64")
+    t = np.array([np.nan if x is None else x for x in times], dtype="float64")
     m = np.ones(t.shape, dtype=bool)
     if window:  # (a source without a time axis is only ever paired with window-less contexts)
-        if window.get("starting") is not None:
-            m &= t >= window["starting"]
-        if window.get("ending") is not None:
-            m &= t < window["ending"]
+        # a row without a time (NaT) satisfies no bound: it is outside every window that has one
+        with np.errstate(invalid="ignore"):
+            if window.get("starting") is not None:
+                m &= t >= window["starting"]
+            if window.get("ending") is not None:
+                m &= t < window["ending"]
     return m
 
 
